@@ -38,6 +38,9 @@ type dnode struct {
 	opt   bool // declared |{optional:true}: may be missing from a document
 	// incell (smap, YAML only): declared "@incell": true and written as one scalar "k:v,k:v"
 	incell bool
+	// predef (mmap, YAML only): the value type is the predefined struct .Reward of the base book (another proto file);
+	// its key field is named by "@keyname" (the imported common.proto defines it for documents)
+	predef bool
 }
 
 type dval struct {
@@ -115,6 +118,10 @@ func (g *dgen) node0(depth int, xml bool) *dnode {
 		}
 		return n
 	case 11:
+		if !xml && g.r.Intn(3) == 0 {
+			return &dnode{kind: "mmap", name: g.fname(), tname: ".Reward", ktyp: "uint32", predef: true,
+				sub: []*dnode{{kind: "scalar", name: "Num", typ: "int32"}}}
+		}
 		n := &dnode{kind: "mmap", name: g.fname(), tname: g.tname(), ktyp: []string{"uint32", "string"}[g.r.Intn(2)]}
 		for i := 1 + g.r.Intn(2); i > 0; i-- {
 			n.sub = append(n.sub, g.node(depth-1, xml))
@@ -186,6 +193,8 @@ func (g *dgen) value(n *dnode) *dval {
 			if n.incell && n.typ == "string" {
 				// values with the sub-separator inside (clock times, host:port, URLs): an item is cut at its FIRST ':'
 				v.vals = append(v.vals, []string{"a", "x:y", "10:30:00", "http://h/p", "w1"}[r.Intn(5)])
+			} else if !n.incell && n.typ == "string" && r.Intn(4) == 0 {
+				v.vals = append(v.vals, "") // an entry whose value is the empty string is still an entry
 			} else {
 				v.vals = append(v.vals, g.scalarText(n.typ))
 			}
@@ -441,7 +450,11 @@ func (w *ywriter) schemaFields(nodes []*dnode, ind string) {
 			w.ln(ind + `  "@type": ` + yqt("map<"+n.ktyp+", "+n.tname+">"+optSfx(n)))
 			incellFalse()
 			w.ln(ind + `  "@struct":`)
-			w.schemaFields(n.sub, ind+"    ")
+			if n.predef {
+				w.ln(ind + `    "@keyname": ID`)
+			} else {
+				w.schemaFields(n.sub, ind+"    ")
+			}
 		}
 	}
 }
@@ -921,11 +934,15 @@ func walk(msg protoreflect.Message, nodes []*dnode, vals []*dval, path string, e
 					return "entry:" + path + n.name
 				}
 				vm := m.Get(mk).Message()
-				kfd := fieldByOptName(vm.Descriptor(), "@key")
+				keyName := "@key"
+				if n.predef {
+					keyName = "ID" // "@keyname": the predefined struct's own key field
+				}
+				kfd := fieldByOptName(vm.Descriptor(), keyName)
 				if kfd == nil || !scalarEq(kfd, vm.Get(kfd), key, false) {
 					return "key:" + path + n.name
 				}
-				if r := walk(vm, n.sub, v.items[k], path+n.name+"{}.", []string{"@key"}); r != "" {
+				if r := walk(vm, n.sub, v.items[k], path+n.name+"{}.", []string{keyName}); r != "" {
 					return r
 				}
 			}
@@ -974,6 +991,10 @@ message Label {
   string name = 1 [(tableau.field).name = "Name"];
   string text = 2 [(tableau.field).name = "Text"];
 }
+message Reward {
+  uint32 id = 1 [(tableau.field).name = "ID"];
+  int32 num = 2 [(tableau.field).name = "Num"];
+}
 `
 
 // docBase: the predefined enum comes from an imported proto file
@@ -986,6 +1007,75 @@ func docBase(w *workspace) runOpts {
 		panic(err)
 	}
 	return runOpts{ProtoPaths: []string{dir}, ProtoFiles: []string{"common.proto"}}
+}
+
+// docMayBeRejected: the schema declares one nested type name twice with different members (at any depth): protogen
+// may refuse it; if it accepts, the conf must still state everything the document holds
+var docMayBeRejected bool
+
+// genRedecl: two struct-list fields of one type name `Player` whose element declarations agree in their direct
+// members (ID, Gear) and differ — or not — one level further down, in `Gear`
+func genRedecl(r *rand.Rand) ([]*dnode, []*dval, bool) {
+	g := &dgen{r: r}
+	variant := r.Intn(3)
+	gear := func(second bool) *dnode {
+		n := &dnode{kind: "struct", name: "Gear", tname: "Gear"}
+		n.sub = append(n.sub, &dnode{kind: "scalar", name: "Sword", typ: "string"})
+		switch {
+		case second && variant == 1: // one more member, deeper down
+			n.sub = append(n.sub, &dnode{kind: "scalar", name: "Shield", typ: "string"})
+		case second && variant == 2: // another type, deeper down
+			n.sub[0].typ = "int32"
+		}
+		return n
+	}
+	player := func(name string, second bool) *dnode {
+		n := &dnode{kind: "mlist", name: name, tname: "Player"}
+		n.sub = append(n.sub, &dnode{kind: "scalar", name: "ID", typ: "uint32"}, gear(second))
+		return n
+	}
+	nodes := []*dnode{{kind: "scalar", name: "Title", typ: "string"}, player("Home", false), player("Away", true)}
+	vals := []*dval{g.forced(nodes[0])}
+	for _, n := range nodes[1:] {
+		gv := &dval{}
+		for _, s := range n.sub[1].sub {
+			gv.fields = append(gv.fields, g.forced(s))
+		}
+		vals = append(vals, &dval{items: [][]*dval{{{text: strconv.Itoa(1 + r.Intn(90))}, gv}}})
+	}
+	return nodes, vals, variant != 0
+}
+
+// genBlankMap: cross-cell scalar maps some of whose entries have the zero value of their type ("" / 0): an entry
+// that the document states is an entry of the message whatever its value is
+func genBlankMap(r *rand.Rand) ([]*dnode, []*dval) {
+	nodes := []*dnode{{kind: "scalar", name: "Name", typ: "string"},
+		{kind: "smap", name: "Label", ktyp: "uint32", typ: "string"},
+		{kind: "smap", name: "Stock", ktyp: []string{"uint32", "int32"}[r.Intn(2)], typ: "int32"},
+		{kind: "smap", name: "Tags", ktyp: "string", typ: "string"}}
+	vals := []*dval{{text: "shop"}}
+	for _, n := range nodes[1:] {
+		v := &dval{}
+		for i, k := 0, 1+r.Intn(4); i < k; i++ {
+			key := strconv.Itoa(i + 1)
+			if n.ktyp == "string" {
+				key = "k" + key
+			}
+			v.keys = append(v.keys, key)
+			switch {
+			case r.Intn(2) == 0 && n.typ == "string":
+				v.vals = append(v.vals, "")
+			case r.Intn(2) == 0:
+				v.vals = append(v.vals, "0")
+			case n.typ == "string":
+				v.vals = append(v.vals, "w"+key)
+			default:
+				v.vals = append(v.vals, strconv.Itoa(1+r.Intn(50)))
+			}
+		}
+		vals = append(vals, v)
+	}
+	return nodes, vals
 }
 
 func runDoc(kind string, text string, nodes []*dnode, vals []*dval, corruptAt *dval) string {
@@ -1004,6 +1094,9 @@ func runDoc(kind string, text string, nodes []*dnode, vals []*dval, corruptAt *d
 	if err := w.genProto(ro); err != nil {
 		if os.Getenv("VERIF_DEBUG") != "" {
 			println("PROTOERR", err.Error(), "\n"+text)
+		}
+		if docMayBeRejected {
+			return "faithful schema-rejected"
 		}
 		return "unfaithful protogen-rejected"
 	}
@@ -1141,12 +1234,30 @@ func init() {
 	regImpl("c09.known", func(a []string) string { return c09Witness(a[0]) })
 	regStream("e2e.C09.documents", func(r *rand.Rand, n int, emit func(string, ...string)) {
 		for i := 0; i < n; i++ {
+			if i%10 == 9 {
+				emit("c09.doc", "redecl", itoa(r.Int63n(1<<40)))
+				continue
+			}
+			if i%10 == 4 {
+				emit("c09.doc", "blankmap", itoa(r.Int63n(1<<40)))
+				continue
+			}
 			emit("c09.doc", []string{"yaml", "yaml", "xml"}[i%3], itoa(r.Int63n(1<<40)))
 		}
 	})
 	regImpl("c09.doc", func(a []string) string {
 		r := rand.New(rand.NewSource(mustInt(a[1])))
 		kind := a[0]
+		if kind == "redecl" {
+			nodes, vals, conflicting := genRedecl(r)
+			docMayBeRejected = conflicting
+			defer func() { docMayBeRejected = false }()
+			return runDoc("yaml", renderYAML(nodes, vals), nodes, vals, nil)
+		}
+		if kind == "blankmap" {
+			nodes, vals := genBlankMap(r)
+			return runDoc("yaml", renderYAML(nodes, vals), nodes, vals, nil)
+		}
 		nodes, vals := genDoc(r, kind == "xml")
 		if kind == "xml" {
 			return runDoc("xml", renderXML(nodes, vals, r), nodes, vals, nil)
@@ -1181,6 +1292,9 @@ func init() {
 			}
 		}
 		text := renderYAML(nodes, vals)
+		if os.Getenv("VERIF_DEBUG") == "2" {
+			println("DOC\n" + text)
+		}
 		return runDoc("yaml", text, nodes, vals, corrupt)
 	})
 }
